@@ -11,7 +11,7 @@
      good_leaves t  every leaf carries a taxon and no taxon sits on two leaves
    Lengths are integers in units of 2^-10 (None = Python None, counted as 0). *)
 From Coq Require Import ZArith QArith List Bool.
-From DV Require Import Model.PyPrims Model.Tree Model.C14Model Model.C14Spec Model.C14Spec2 Model.C14Csv Proofs.C14Proofs Proofs.C14Means Proofs.C14Clu Proofs.C14Upgma Proofs.C14Nj Proofs.C14Ultra Proofs.C14Uniq Proofs.C14UpgmaFull Proofs.C14CsvProofs Proofs.C14Qcrit Proofs.C14FourPoint.
+From DV Require Import Model.PyPrims Model.Tree Model.C14Model Model.C14Spec Model.C14Spec2 Model.C14Csv Proofs.C14Proofs Proofs.C14Means Proofs.C14Clu Proofs.C14Upgma Proofs.C14Nj Proofs.C14Ultra Proofs.C14Uniq Proofs.C14UpgmaFull Proofs.C14CsvProofs Proofs.C14Qcrit Proofs.C14FourPoint Proofs.C14NjQ Proofs.C14NjTree.
 Import ListNotations.
 Open Scope Z_scope.
 
@@ -359,10 +359,12 @@ Print Assumptions ultrametric_tree_nonvacuous.
    Proof: invariant over the iterations (Proofs/C14Nj.v, NI): every pool node's subtree realises
    the matrix on its leaves, and for leaves a, b in different pool nodes u, v:
    M a b = depth of a below u + stored d(u,v) + depth of b below v.
-   MISSING (not proved): the Q-criterion lemma itself -- for P := "the stored distances are the path
-   distances of a tree with positive internal edge lengths", qcrit_cherry P (Saitou-Nei 1987,
-   Studier-Keppler 1988) and qcrit_closed P -- and the uniqueness of the tree realising a metric.
-   Recovery of generating trees is therefore checked by the correspondence oracle only. *)
+   The Q-criterion lemma itself -- for P := four_point_strict, "the stored distances are those of a
+   tree with positive internal edge lengths": qcrit_cherry P (Saitou-Nei 1987, Studier-Keppler 1988)
+   and qcrit_closed P -- is proved for every number of nodes at the end of this file (q_criterion),
+   which makes the statement unconditional (nj_recovers_additive, nj_recovers_tree).
+   MISSING (not proved): the uniqueness of the unrooted tree realising a metric; that NJ's output has
+   the generating tree's splits is therefore checked by the correspondence oracle only. *)
 Theorem nj_recovers_additive_partial : forall M order (P : list jnode -> Prop),
   NoDup order -> order <> [] -> mcomplete M order -> msymmetric M order ->
   qcrit_cherry P -> qcrit_closed P -> (forall pool, nj_init M order = Ok pool -> P pool) ->
@@ -509,11 +511,11 @@ Print Assumptions q_criterion_up_to_five.
    strictly resolved four-point condition, in every iteration order and with every tie-break,
    nj_tree returns a tree whose path distance between any two taxa is the matrix entry
    (PDM(NJ(M)) = M; the lengths assigned at each join are the exact pendant lengths by
-   nj_step_sound).  For more than five taxa nj_recovers_additive_partial remains an implication from
-   the Q-criterion: the general lemma (Studier-Keppler) is NOT proved.  Also not proved: that a tree
-   is determined by its (unrooted) metric -- recovery of unrooted splits with their lengths is checked
-   by the correspondence oracle only.  (That the matrix of a binary rose tree with positive internal
-   edge lengths satisfies mfour_point_strict IS proved: tree_matrix_four_point_strict below.) *)
+   nj_step_sound).  (Superseded by nj_recovers_additive below, which has no size bound; kept as the
+   exhaustive small-case analysis.)  Not proved: that a tree is determined by its (unrooted) metric --
+   recovery of unrooted splits with their lengths is checked by the correspondence oracle only.
+   (That the matrix of a binary rose tree with positive internal edge lengths satisfies
+   mfour_point_strict IS proved: tree_matrix_four_point_strict below.) *)
 Theorem nj_recovers_additive_up_to_five_taxa : forall M order,
   NoDup order -> order <> [] -> (length order <= 5)%nat ->
   mcomplete M order -> msymmetric M order -> mfour_point_strict M order ->
@@ -543,3 +545,82 @@ Theorem nj_recovers_tree_up_to_five_leaves : forall t p order,
       exists q d, qdist T a b = Some q /\ dist t a b = Some d /\ (q == uq d)%Q.
 Proof. exact nj_recovers_tree_small. Qed.
 Print Assumptions nj_recovers_tree_up_to_five_leaves.
+
+(* ======================================================================================== *)
+(* THE Q-CRITERION FOR EVERY NUMBER OF NODES (Saitou-Nei 1987, Studier-Keppler 1988)          *)
+(* ======================================================================================== *)
+(* Proofs/C14NjQ.v, in exact rational arithmetic and from the four-point condition alone (no tree):
+   for EVERY well-formed pool (any size) whose stored distances satisfy the strictly resolved
+   four-point condition, (1) every pair minimising (n-2) d(a,b) - xsub a - xsub b -- in particular the
+   first minimal pair in pool order, which nj_step joins -- is a cherry, and (2) joining it leaves a
+   pool satisfying the condition again.
+   Proof of (1): Q_uv = -2 d_uv - sum_w (d_uw + d_vw - d_uv), so
+     Q_ij - Q_yz = sum over w outside {i,j,y,z} of [(d_yw + d_zw - d_yz) - (d_iw + d_jw - d_ij)]
+   (twice: distance of w from the path y..z minus its distance from the path i..j).  If (i, j) is not
+   a cherry, two other nodes attach at different points of the path i..j; the attachment classes are
+   disjoint, so one class A holds at most half of the other nodes (the lighter side).  If A = {y}, then
+   (i, y) or (y, j) has a strictly smaller Q (every term of the difference is >= 0, one is > 0).
+   Otherwise take y, z in A with the largest Gromov product seen from the path: every w outside A
+   contributes at least c > 0 and every w in A at least -c, and A minus {y, z} is smaller than the
+   rest: Q_yz < Q_ij.  Either way (i, j) does not minimise Q. *)
+Theorem q_criterion : qcrit_cherry four_point_strict /\ qcrit_closed four_point_strict.
+Proof. exact (conj fp_cherry fp_closed). Qed.
+Print Assumptions q_criterion.
+
+(* the identity behind it, for any well-formed pool (no four-point condition needed): the difference
+   of the Q-values of two disjoint pairs is a sum over the remaining nodes *)
+Theorem q_criterion_identity : forall pool i j y z,
+  jwf pool -> In i pool -> In j pool -> In y pool -> In z pool ->
+  j_id i <> j_id j -> j_id i <> j_id y -> j_id i <> j_id z ->
+  j_id j <> j_id y -> j_id j <> j_id z -> j_id y <> j_id z ->
+  (qvalue (Z.of_nat (length pool)) i j - qvalue (Z.of_nat (length pool)) y z ==
+   qsum (map (fun w => (jd y w + jd z w - jd y z) - (jd i w + jd j w - jd i j))
+             (filter (fun w => negb (existsb (Z.eqb (j_id w)) [j_id i; j_id j; j_id y; j_id z])) pool)))%Q.
+Proof. exact (fun pool i j y z W => q_diff4 pool W i j y z). Qed.
+Print Assumptions q_criterion_identity.
+
+(* NJ INVERTS ADDITIVE DISTANCES (unconditional form of nj_recovers_additive_partial): on every
+   complete symmetric matrix satisfying the strictly resolved four-point condition -- any number of
+   taxa, every iteration order, every tie-break -- nj_tree returns a tree whose path distance
+   between any two taxa is exactly the matrix entry: PDM(NJ(M)) = M; the edge lengths assigned at
+   each join are the exact pendant lengths (nj_step_sound, whose cherry clause applies at every
+   iteration by q_criterion). *)
+Theorem nj_recovers_additive : forall M order,
+  NoDup order -> order <> [] ->
+  mcomplete M order -> msymmetric M order -> mfour_point_strict M order ->
+  exists T, nj_tree M order = Ok T /\
+    forall a b, In a order -> In b order -> a <> b -> exists q, qdist T a b = Some q /\ (q == mval M a b)%Q.
+Proof. exact nj_recovers_additive_l. Qed.
+Print Assumptions nj_recovers_additive.
+
+(* Hence, for every binary rose tree t (every node has no or two children) with distinct leaf taxa,
+   non-negative lengths and positive lengths above its internal nodes, with ANY number of leaves, and
+   every iteration order of (any non-empty subset of) its taxa: nj_tree applied to t's distance matrix
+   returns a tree whose path distance between any two taxa is exactly t's -- PDM(NJ(PDM t)) = PDM t.
+   Still not proved: that an unrooted tree is determined by its metric (so that NJ's output IS t up to
+   rooting); checked by the correspondence oracle. *)
+Theorem nj_recovers_tree : forall t p order,
+  rbin t -> good_leaves t -> t_kids t <> [] -> positive_internal t -> nonneg_lengths t ->
+  compile_from_tree t = Ok p ->
+  NoDup order -> order <> [] -> (forall a, In a order -> In (Some a) (leaf_taxa t)) ->
+  exists T, nj_tree (qtable p true) order = Ok T /\
+    forall a b, In a order -> In b order -> a <> b ->
+      exists q d, qdist T a b = Some q /\ dist t a b = Some d /\ (q == uq d)%Q.
+Proof. exact nj_recovers_tree_l. Qed.
+Print Assumptions nj_recovers_tree.
+
+(* non-vacuity beyond the exhaustively analysed sizes: a seven-leaf tree that is not ultrametric,
+   ((A:1,B:3):2,((C:2,(D:1,E:4):1):3,(F:2,G:5):1):2), satisfies the hypotheses, and on it the model
+   (computed) returns a tree with d(A, G) = 11 *)
+Example nj_recovers_tree_nonvacuous :
+  rbin ex_nj7 /\ good_leaves ex_nj7 /\ t_kids ex_nj7 <> [] /\ positive_internal ex_nj7 /\ nonneg_lengths ex_nj7 /\
+  (exists p, compile_from_tree ex_nj7 = Ok p) /\
+  NoDup [3; 0; 6; 2; 5; 1; 4] /\ (forall a, In a [3; 0; 6; 2; 5; 1; 4] -> In (Some a) (leaf_taxa ex_nj7)).
+Proof. exact ex_nj7_ok. Qed.
+Print Assumptions nj_recovers_tree_nonvacuous.
+
+Example nj_recovers_tree_example :
+  exists p T, compile_from_tree ex_nj7 = Ok p /\ nj_tree (qtable p true) [3; 0; 6; 2; 5; 1; 4] = Ok T /\
+    option_map Qred (qdist T 0 6) = Some (11 # 1)%Q /\ dist ex_nj7 0 6 = Some (11 * 1024).
+Proof. exact ex_nj7_runs. Qed.
+Print Assumptions nj_recovers_tree_example.
